@@ -108,10 +108,10 @@ theorem static_ops_eq_script_ops (ctx : Ctx) (h160 : Bytes → Bytes) (n : Ms) (
    is in `Sat`, has at most `max_stack_items` elements / `max_witness_size` bytes, runs within
    `max_ops`, and `satisfy` returns none when the spending condition is false.
    Proved below: T3 over the fragment set
-     S1 = { 0, 1, pk_k, pk_h, sha256, hash256, ripemd160, hash160, c:, v:, a:, n:, and_v, and_b,
-            or_b, or_c, or_d, or_i, andor }
+     S1 = { 0, 1, pk_k, pk_h, sha256, hash256, ripemd160, hash160, c:, v:, a:, s:, n:, d:, and_v,
+            and_b, or_b, or_c, or_d, or_i, andor }
    for every candidate satisfaction/dissatisfaction of the tables (canonical and overcomplete),
-   against the minimal semantics of Model/C15/Eval.lean.  Missing: s: d: j:, older, after, multi, multi_a, thresh; the satisfier's choice (`_better`) and
+   against the minimal semantics of Model/C15/Eval.lean.  Missing: j:, older, after, multi, multi_a, thresh; the satisfier's choice (`_better`) and
    the bounds. -/
 
 /-- T3_partial: every typed expression of S1 does to the stack what its type promises — "B": a
@@ -125,6 +125,15 @@ theorem type_soundness_partial (E : EvalEnv) (hsig0 : ∀ k, E.sigOK k [] = fals
     (h : s1Typed ctx n = true) :
     Sound E ctx h160 n :=
   sound_s1 E ctx h160 hsig0 hH n h
+
+/-- "z" and "o" mean what they say (S1): a satisfaction or dissatisfaction of a "z" expression has
+    no element, of an "o" expression exactly one. -/
+theorem stack_arity_partial (E : EvalEnv) (ctx : Ctx) (n : Ms) (h : s1Typed ctx n = true)
+    (s : List Bytes) (hs : Sat E n s ∨ Dsat E n s) :
+    ((typeOf ctx n).z = true → s.length = 0) ∧ ((typeOf ctx n).o = true → s.length = 1) := by
+  rcases hs with hs | hs
+  · exact (len_s1 E ctx n h).1 s hs
+  · exact (len_s1 E ctx n h).2 s hs
 
 /-- T4_partial (validity half, for the tables rather than the chooser): a top-level "B" of S1 run
     on any stack its satisfaction table lists ends with exactly the true value on the stack
@@ -154,6 +163,7 @@ example :
 
 example (E : EvalEnv) (k : Key) (σ : Bytes) (hσ : E.sigOK k σ = true) (y : Ms) :
     Sat E (.bin .or_i (.bin .and_v (.wrap .v (.wrap .c (.pk_k k))) .f1) y) ([1] :: ([σ] ++ [])) :=
-  .or_i_l _ _ _ (.and_v _ _ _ _ (.wrap _ _ _ (.wrap _ _ _ (.pk_k k σ hσ))) .f1)
+  .or_i_l _ _ _ (.and_v _ _ _ _ (.wrap _ _ _ (by decide) (by decide)
+    (.wrap _ _ _ (by decide) (by decide) (.pk_k k σ hσ))) .f1)
 
 end Props.C15
